@@ -66,12 +66,20 @@ NS void dfh_new(const struct rcu_flavor_struct *flavor, unsigned long max)
 	vrt_name(&wq->flags, VK_INT, "wq.flags"); vrt_name(&wq->futex, VK_INT, "wq.futex"); vrt_name(&wq->qlen, VK_INT, "wq.qlen");
 	vrt_name(&wq->cbs_tail.p, VK_PTR, "wq.tail"); vrt_name(&wq->cbs_head.node.next, VK_PTR, "Hwq.next"); vrt_name_val(&wq->cbs_head.node, "Hwq");
 }
-/* a second table on another flavor: registers the rculfhash atfork handlers with that flavor too (nesting counter) */
-NS void dfh_new2(const struct rcu_flavor_struct *flavor)
+/* a second table on a SECOND flavor: cds_lfht_new registers the rculfhash atfork handlers with that flavor too (nesting counter).  The
+ * second flavor is a copy of the first whose register_rculfhash_atfork records the handler set; dfh_before2 / dfh_after2 are that flavor's
+ * call_rcu_before_fork / call_rcu_after_fork_{parent,child} as far as the hash table is concerned: they invoke the registered handlers. */
+static struct rcu_flavor_struct flv2; static struct urcu_atfork *flv2_atfork;
+static NS void flv2_register(struct urcu_atfork *a) { flv2_atfork = a; }
+static NS void flv2_unregister(struct urcu_atfork *a) { (void) a; flv2_atfork = NULL; }
+void dfh_new2(const struct rcu_flavor_struct *flavor)
 {
-	struct cds_lfht *h = _cds_lfht_new_with_alloc(1, 1, 2, 0, &cds_lfht_mm_order, flavor, &rec_alloc, NULL);
-	if (!h) { fprintf(stderr, "cds_lfht_new failed\n"); _exit(2); }
+	flv2 = *flavor; flv2.register_rculfhash_atfork = flv2_register; flv2.unregister_rculfhash_atfork = flv2_unregister;
+	struct cds_lfht *h = _cds_lfht_new_with_alloc(1, 1, 2, CDS_LFHT_AUTO_RESIZE, &cds_lfht_mm_order, &flv2, &rec_alloc, NULL);
+	if (!h || !flv2_atfork) { fprintf(stderr, "second table / atfork registration failed\n"); _exit(2); }
 }
+void dfh_before2(void) { flv2_atfork->before_fork(flv2_atfork->priv); }
+void dfh_after2(int child) { if (child) flv2_atfork->after_fork_child(flv2_atfork->priv); else flv2_atfork->after_fork_parent(flv2_atfork->priv); }
 void dfh_add(int key)
 {
 	struct dfh_node *n = &HN[key & 31];
